@@ -134,6 +134,7 @@ def run(ctx):  # noqa: C901, PLR0912, PLR0915
         lits.append((f'(DGet ({b(c["urlparse_ok"])}, ({c["dispatch"][0]}, {c["dispatch"][1]})))', res_lit(r), 'flow_get', i))
     ctx.count('flow_get', len(gets), [str(c) for c in gets], exhaustive=True)
     outcomes = {}
+    design_diff = []
     for i, (c, tr) in enumerate(zip(handlers, impl['flow_handler'])):
         r = tr['result']
         is_post = c['method'] == 'POST'
@@ -147,7 +148,10 @@ def run(ctx):  # noqa: C901, PLR0912, PLR0915
                      {'stream': 'flow_handler', 'clause': r[0], 'method': c['method']},
                      {'stream': 'flow_handler', 'case': c, 'impl_trace': tr, 'oracle': {'verdict': 'fail', 'clause': 'every request gets an HTTP response'}})
         if is_post and read_ok != (tr['read_ok'][:1] == [True]) and r[0] == 'answer' and tr['read_ok']:
-            ctx.broken('correspondence', 'flow_handler', {'why': 'body reader outcome differs from the case design', 'case': c, 'impl': tr})
+            design_diff.append({'case': c, 'impl': tr})
+    if design_diff:
+        ctx.broken('correspondence', 'flow_handler', {'why': 'the body reader accepted / rejected a body differently from the case design',
+                                                      'cases': len(design_diff), 'first': design_diff[0]})
     ctx.count('flow_handler', len(handlers), [str(c) for c in handlers], exhaustive=True, outcomes=outcomes)
     ctx.sample({'stream': 'flow_handler', 'case': handlers[7], 'impl': impl['flow_handler'][7]})
 
@@ -184,7 +188,7 @@ def run(ctx):  # noqa: C901, PLR0912, PLR0915
             ctx.fail(f'reader ({c["kind"]}{"/" + c["mutation"] if c.get("mutation") else ""}): {why[1]}',
                      {'stream': 'reader', 'clause': why[0]},
                      {'stream': 'reader', 'case': {'te': c['te'], 'cl': c['cl'], 'ce': c['ce'], 'data_hex': c['data'].hex()[:4000],
-                                                   'caps': c['caps'][:60], 'kind': c['kind'], 'mutation': c.get('mutation')},
+                                                   'caps': c['caps'][:200], 'kind': c['kind'], 'mutation': c.get('mutation'), 'model_hdr': list(c['model_hdr'])},
                       'impl_trace': tr, 'oracle': {'verdict': 'fail', 'clause': why[0]}})
         a, e = c17.reader_literals(c, tr)
         rlits.append((f'(FReq {a})', f'(FTrace {e})'))
@@ -236,8 +240,9 @@ def run(ctx):  # noqa: C901, PLR0912, PLR0915
     wl = []
     for i, tr in enumerate(traces):
         fam = (tr['mutation'] or 'setup').split(':')[0]
-        hist_type[tr['label']] = hist_type.get(tr['label'], 0) + 1
-        hist_mut[tr['mutation'] or 'setup'] = hist_mut.get(tr['mutation'] or 'setup', 0) + 1
+        if not tr['nested']:
+            hist_type[tr['label']] = hist_type.get(tr['label'], 0) + 1
+            hist_mut[tr['mutation'] or 'setup'] = hist_mut.get(tr['mutation'] or 'setup', 0) + 1
         key = f'{tr["endpoint"][:4]}:{tr["status"]}:{tr["body_class"]}'
         hist_status[key] = hist_status.get(key, 0) + 1
         if tr.get('state_changed') is not None and (tr['status'] or 0) >= 400:
@@ -293,7 +298,9 @@ def run(ctx):  # noqa: C901, PLR0912, PLR0915
                                                                                  'impl_as_result': lits[j][1],
                                                                                  'model': ctx.coq_eval(HEADER, f'run_dispatch {lits[j][0]}')[-200:]}})
     prov_top = [t for t in traces if t['endpoint'] == 'provider' and not t['nested']]
-    ctx.count('world', len(traces), [(t['world'], k) for k, t in enumerate(traces)],
+    top = [t for t in traces if not t['nested']]
+    ctx.count('world', len(top), [(t['world'], k) for k, t in enumerate(traces) if not t['nested']],
+              nested_notifications_delivered_to_consumer=len(traces) - len(top),
               request_types=hist_type, mutations=hist_mut, status_and_body=hist_status, observed_stage_outcomes=hist_stage,
               replayed_on_model={'handler': n_handler_lits, 'middleware': n_mw_lits},
               rejected_with_snapshot=n_rejected_checked, provider_requests=len(prov_top),
@@ -335,3 +342,46 @@ def run(ctx):  # noqa: C901, PLR0912, PLR0915
                       'reads of n >= 2^40 bytes on a real BufferedReader raise MemoryError instead of returning what is there; the '
                       'handler answers 400 either way',
                       'time-outs on sockets that stay open without sending (socketserver/ssl level)'])
+
+
+def replay(ctx, rep):
+    """./check C13 --replay <file>: re-run the recorded case on the implementation (and the model where it applies)"""
+    import json
+    stream, case = rep.get('stream'), rep.get('case') or {}
+    out = {'stream': stream, 'what': rep.get('what')}
+    if stream == 'flow_post':
+        out['impl'] = ctx.impl('c13_impl', {'flow_post': [case]})['flow_post'][0]
+        out['model'] = ctx.coq_eval(HEADER, f'run_dispatch {post_lit(case)}')
+    elif stream == 'flow_handler':
+        out['impl'] = ctx.impl('c13_impl', {'flow_handler': [case]})['flow_handler'][0]
+        out['model'] = ctx.coq_eval(HEADER, 'run_dispatch ' + handle_lit(case['method'] == 'POST', case['read'] in ('ok', 'ok_chunked'), case['dispatcher'],
+                                                                           case['pclass'], case['component'], case['reason'] == 'boom'))
+    elif stream == 'reader':
+        data = bytes.fromhex(case['data_hex'])
+        out['impl'] = ctx.impl('c17_impl', {'reader': [{'te': case['te'], 'cl': case['cl'], 'ce': case['ce'], 'data': data.hex(), 'caps': case['caps']}]})['reader'][0]
+        out['fuel_bound_reads'] = 3 * len(data) + 32
+        if 'model_hdr' in case:
+            ch, code, v = case['model_hdr']
+            ce = case['ce'] if case['ce'] else None
+            inp = f'(({b(ch)}, {code}, {v}), {c17.OB(c17.lat(ce))}, {c17.B(data)}, {c17.NL(case["caps"])})'
+            out['model (tag, (bytes handed on, bytes left))'] = ctx.coq_eval(c17.HEADER, f'run_request hdr_max available_encodings {inp}')
+    elif stream == 'world':
+        cfg = dict(case['world'], keep_hex=400)
+        wd = ctx.impl('c13_impl', {'world': cfg}, timeout=1500)
+        if wd.get('_crash'):
+            out['impl'] = wd
+        else:
+            bad = []
+            for tr in wd['world']['traces']:
+                why = world_oracle(tr)
+                if why:
+                    bad.append({'why': why, 'trace': tr})
+            out['failing_deliveries'] = bad[:5]
+            out['n_failing'] = len(bad)
+            out['n_deliveries'] = len(wd['world']['traces'])
+        out['model'] = '(the world stream replays observed stage outcomes on Http.Dispatch; see evidence)'
+    else:
+        out['note'] = 'no single case recorded (proof or correspondence break without failing input)'
+        out['broken'] = rep.get('broken')
+    print(json.dumps(out, indent=1, default=str)[:20000])
+    return 0
